@@ -1171,7 +1171,7 @@ def possible_consts(f, operand, limit=32):
         if pr and not (len(pr) == 1 and isinstance(pr[0], dict) and pr[0].get("f") == 0):
             return None          # only `.0` of a checked-arithmetic pair is followed
         return vals.get(l, set())
-    for _ in range(8):
+    for _ in range(32):
         changed = False
         for l in locs:
             for (b, si, node) in f.defs().get(l, []):
